@@ -31,6 +31,7 @@ import (
 	"github.com/ipni/go-libipni/dagsync/ipnisync"
 	"github.com/ipni/go-libipni/ingest/schema"
 	"github.com/libp2p/go-libp2p/core/host"
+	"github.com/libp2p/go-libp2p/core/network"
 	"github.com/libp2p/go-libp2p/core/peer"
 	"github.com/multiformats/go-multiaddr"
 	"github.com/multiformats/go-multihash"
@@ -596,6 +597,28 @@ func (p *Pub) ServeHTTP(w http.ResponseWriter, r *http.Request) {
 		done(-5)
 		hdr := fmt.Sprintf("HTTP/1.1 200 OK\r\nContent-Length: %d\r\nContent-Type: application/json\r\n\r\n", fault.Status)
 		hijackClose(w, append([]byte(hdr), fault.Body...))
+	case "reset":
+		// 200 with a declared Content-Length of fault.Status bytes, fault.Body
+		// sent, and then the connection is reset: the client's read of the
+		// body fails with the error a libp2p stream reports when its peer
+		// resets it (network.ErrReset), not with an unexpected EOF
+		done(-7)
+		hdr := fmt.Sprintf("HTTP/1.1 200 OK\r\nContent-Length: %d\r\nContent-Type: application/json\r\n\r\n", fault.Status)
+		hj, ok := w.(http.Hijacker)
+		if !ok {
+			panic("response writer cannot be hijacked")
+		}
+		conn, _, err := hj.Hijack()
+		if err != nil {
+			return
+		}
+		if fr, ok := conn.(interface{ FailPeerReads(error) }); ok {
+			fr.FailPeerReads(network.ErrReset)
+		} else {
+			panic("connection cannot be reset (not a memnet connection)")
+		}
+		conn.Write(append([]byte(hdr), fault.Body...))
+		conn.Close()
 	case "declared-stall":
 		// 200 with a declared Content-Length of fault.Status bytes, fault.Body
 		// sent, and then nothing more: the response stays open until the
